@@ -466,7 +466,7 @@ def concatStep (f : Str → Option (List Str × Bool)) :
     | some (m, cs) =>
       if acc.length + m.length > maxSetMatches then none
       else
-        let exp' := match exp with | none => cs | some e => e
+        let exp' := exp.getD cs
         if exp' != cs then none else concatStep f bs (acc ++ m) (some exp')
 
 mutual
@@ -497,7 +497,7 @@ def fsmAlt (fixed : Bool) : List Re → Str → List Str → Option Bool → Opt
     | some (found, cs) =>
       if acc.length + found.length > maxSetMatches then none
       else
-        let exp' := match exp with | none => cs | some e => e
+        let exp' := exp.getD cs
         if exp' != cs then none else fsmAlt fixed rest base (acc ++ found) (some exp')
 /-- `findSetMatchesFromConcat` outer loop; the expected sensitivity is fixed by the very first result -/
 def fsmCat (fixed : Bool) : List Re → List Str → Option Bool → Option (List Str × Bool)
